@@ -2320,13 +2320,34 @@ def c20_search(ctx, failing, corr, broken):
                     'what': 'the parser harness died (sanitizer report or signal) at %s on %r' % (
                         bad[0] if bad else '?', bad[1][:60] if bad else b'')})
     ctx.c20_parsers = {'requests': len(lines), 'results': kinds}
-    # failing inputs among the sanitizer run
-    for d in (corr or {}).get('disagreements', [])[:4]:
+    # failing inputs among the sanitizer run: a request that kills the instrumented harness takes the rest of
+    # its batch with it, so each silent request is re-run alone to find the ones that die by themselves
+    dis = (corr or {}).get('disagreements', [])
+    silent = [d for d in dis if d['detail'].startswith('native harness produced no output')]
+    loud = [d for d in dis if not d['detail'].startswith('native harness produced no output')]
+    for d in loud[:4]:
         out.append({'kind': 'c20-entry', 'entry': d['id'], 'fmt': d['fmt'], 'what': d['detail'],
                     'native_request': d['native_request']})
-    for c in (corr or {}).get('crashes', [])[:2]:
-        out.append({'kind': 'c20-sanitizer', 'returncode': c.get('returncode'), 'what': 'sanitizer abort / crash of the '
-                    'instrumented harness: ' + (c.get('stderr') or '')[-1200:]})
+    culprits = 0
+    if silent:
+        exe = ctx.native('san')
+        import subprocess
+        env = dict(os.environ, ASAN_OPTIONS='detect_leaks=0')
+        for d in silent[:120]:
+            p = subprocess.run([exe], input=d['native_request'] + '\n', stdout=subprocess.PIPE, stderr=subprocess.PIPE,
+                               text=True, env=env)
+            if p.returncode != 0 or not p.stdout.strip():
+                culprits += 1
+                out.append({'kind': 'c20-sanitizer', 'entry': d['id'], 'fmt': d['fmt'], 'native_request': d['native_request'],
+                            'returncode': p.returncode,
+                            'what': '%s at %d bits on the inputs "%s" dies under ASan/UBSan/libstdc++ assertions: %s' % (
+                                d['id'], d['fmt'], d['native_request'], (p.stderr or '')[-900:])})
+                if culprits >= 3:
+                    break
+    if not culprits:
+        for c in (corr or {}).get('crashes', [])[:2]:
+            out.append({'kind': 'c20-sanitizer', 'returncode': c.get('returncode'), 'what': 'sanitizer abort / crash of the '
+                        'instrumented harness: ' + (c.get('stderr') or '')[-1200:]})
     return out
 
 
